@@ -207,6 +207,8 @@ func (j *judge) instant(T time.Time, G []*opRec) {
 				required, why = false, "stop"
 			} else if s.ret < wk[0].stamp {
 				forbidden = "start-after-stop-returned"
+			} else {
+				rec.Count("racing.same_instant.stop_vs_wake.wake_first_all_due_required", 1)
 			}
 		}
 		var rms []*opRec
